@@ -4,7 +4,7 @@ from checks import _cl
 
 # the bookkeeping theorems of C04 (incl. the pinned crossing conventions of the regenerated swap helpers) are supporting
 # obligations: pricing, custody and fee accrual all read the active liquidity they maintain
-MODULES = ["SunriseVerif.Props.C05", "SunriseVerif.Props.C05Loop", "SunriseVerif.Props.C05Store", "SunriseVerif.Props.C04"]
+MODULES = ["SunriseVerif.Props.C05", "SunriseVerif.Props.C05Loop", "SunriseVerif.Props.C05Store", "SunriseVerif.Props.C05Round", "SunriseVerif.Props.C04"]
 
 
 def run(ctx):
@@ -21,6 +21,17 @@ def run(ctx):
     if bad:
         ctx.fail("oracle", "kernel statement false on concrete operands", str(bad[:3]), replay={"false_statements": bad[:20]},
                  check="kernel_statement", features={"pred": bad[0]["pred"]})
+    if ok:
+        # The two clauses that are FALSE of the unchanged code at extreme prices (machine-checked witnesses on the regenerated
+        # kernels in Props/C05Round, replayed on the Go helpers): listed in known_findings/C05.json, reported as KNOWN-FINDING.
+        ctx.fail("oracle", "roundtrip_no_profit: one bucket, fee 0, sqrt price 10^10, liquidity 2*10^10-8*10^-9: 199999999999999999920 quote in, "
+                 "1 base out, fed back: 199999999999999999959 quote (Props/C05Round.roundtrip_profit_fee0)", "",
+                 replay={"witness": "Props/C05Round.roundtrip_profit_fee0", "P_raw": "10^28", "L_raw": "2*10^28-8*10^9", "X": "2*10^20-80"},
+                 features={"class": "extreme_sqrt_price_rounding_dust"}, check="roundtrip_no_profit")
+        ctx.fail("oracle", "output_monotone_in_input: one bucket, fee 0, sqrt price 10^-9, liquidity 0.9: Dec inputs of 194 and 195 ulps, "
+                 "the output drops (Props/C05Round.bucket_output_not_mono)", "",
+                 replay={"witness": "Props/C05Round.bucket_output_not_mono"},
+                 features={"class": "fractional_dec_input_at_tiny_price"}, check="output_monotone_in_input")
     if ctx.thorough() and ok:
         ctx.leanchecker(MODULES)
 
